@@ -140,7 +140,8 @@ def _local_single_defs(f: FuncInfo) -> dict[str, ast.AST]:
                             vals[tt.id] = n.value
         elif isinstance(n, (ast.AugAssign, ast.AnnAssign)) and isinstance(n.target, ast.Name):
             counts[n.target.id] = counts.get(n.target.id, 0) + 2
-        elif isinstance(n, (ast.For, ast.AsyncFor, ast.comprehension)):
+        elif isinstance(n, (ast.For, ast.AsyncFor)):
+            # (comprehension targets live in their own scope and never rebind a function local)
             for tt in _flatten_targets(n.target):
                 if isinstance(tt, ast.Name):
                     counts[tt.id] = counts.get(tt.id, 0) + 2
@@ -194,3 +195,22 @@ def enum_members(cls) -> dict[str, object]:
         elif isinstance(val, ast.Call) and call_attr(val) == "auto":
             out[name] = name.lower() if cls.has_ext_base("StrEnum") else name
     return out
+
+
+def follow_delegate(f: FuncInfo) -> FuncInfo:
+    """If f only delegates - `[with <lock>:] return self.<other>(<its own parameters>)` - return <other> (bounded, else f)."""
+    for _ in range(3):
+        body = [st for st in f.node.body if not (isinstance(st, ast.Expr) and isinstance(st.value, ast.Constant))]
+        if len(body) == 1 and isinstance(body[0], (ast.With, ast.AsyncWith)) and len(body[0].body) == 1:
+            body = body[0].body
+        if len(body) != 1 or not isinstance(body[0], (ast.Return, ast.Expr)) or not isinstance(body[0].value, ast.Call):
+            return f
+        c = body[0].value
+        if not (isinstance(c.func, ast.Attribute) and isinstance(c.func.value, ast.Name) and f.cls is not None
+                and f.node.args.args and c.func.value.id == f.node.args.args[0].arg):
+            return f
+        t = f.cls.find_method(c.func.attr)
+        if t is None or t is f:
+            return f
+        f = t
+    return f
